@@ -1,6 +1,314 @@
-/-! line-protocol handlers (stub: filled in when the suite is built) -/
-namespace Apko.Driver.Accounts
+import Apko.Model.Accounts
+import Apko.Driver.FS
+/-! line-protocol handlers for corr:accounts (C13)
 
-def handle (_args : List String) : Option String := none
+All requests carry the node graph the real `tarfs` had *before* the call (`pre`, the canonical
+dump of the `VerifDump` hook) and the one it had *after* (`post`); the driver parses both back into
+`FS` values, runs the Impl model from `pre`, and evaluates the Spec post-conditions on `post`
+(Go's observation).  Mode `verdict`: `impl \t pass|fail:<reasons> \t class`.
+
+* `acc.mut   <pre> <goRes> <post> <mutation>`            one iteration of `mutatePaths`
+* `acc.paths <pre> <goRes> <post> <mutation> …`          one call of `mutatePaths` with the whole list
+* `acc.accounts <pre> <goRes> <post> <u|g|r token> …`    `mutateAccounts`
+* `acc.e2e <sel> <token> …`                              a whole `apko build`: configuration tokens and
+  the observation of the emitted layer / image configuration (oracle only); `sel` = `acc` or the
+  index of the path mutation that is judged
+-/
+namespace Apko.Driver.Accounts
+open Apko Apko.Path Apko.FS Apko.Formats Apko.Accounts
+open Apko.Driver.FS (T natS intS parseNat parseInt ux parseKV dump errS sepJoin)
+
+/-! ### parsing the canonical dump back into a node graph -/
+
+def parseTe (s : String) : Option TarEntry :=
+  if s = "-" then none else
+  match s.splitOn "/" with
+  | [sz, content, sum, pkg] =>
+    some { content := ux content, size := parseNat sz, checksum := ux sum, pkgName := ux pkg,
+           pkgOrigin := [], pkgReplaces := [] }
+  | _ => none
+
+def parseAttrs (s : String) : Option Inode :=
+  match s.splitOn "," with
+  | [d, mode, uid, gid, mtime, nlink, data, target, major, minor, xa, te, hl] =>
+    some { dir := d = "D", mode := parseNat mode, uid := parseInt uid, gid := parseInt gid,
+           mtime := parseInt mtime, nlink := parseNat nlink, data := ux data, target := ux target,
+           major := parseNat major, minor := parseNat minor, xattrs := parseKV xa, te := parseTe te,
+           hardlinks := parseKV hl }
+  | _ => none
+
+/-- `"/a/b"` ↦ (`"/a"`, `"b"`) -/
+def splitLast (p : Text) : Text × Text :=
+  let r := p.reverse
+  ((r.dropWhile (· ≠ '/')).drop 1 |>.reverse, (r.takeWhile (· ≠ '/')).reverse)
+
+structure PState where
+  nodes : List Inode := []
+  ids : List (Text × Nat) := []
+  ok : Bool := true
+
+def parseRec (st : PState) (rec : String) : PState :=
+  match rec.splitOn ":" with
+  | hp :: ks :: rest =>
+    let p := ux hp
+    let k := parseNat ks
+    let st1 : PState := match rest with
+      | [attrs] =>
+        match parseAttrs attrs with
+        | some n => { st with nodes := st.nodes ++ [n], ok := st.ok && k == st.nodes.length }
+        | none => { st with ok := false }
+      | [] => { st with ok := st.ok && k < st.nodes.length }
+      | _ => { st with ok := false }
+    if p = [] then { st1 with ids := (p, k) :: st1.ids } else
+    let (pp, name) := splitLast p
+    match st1.ids.lookup pp with
+    | none => { st1 with ok := false }
+    | some pid =>
+      let pn := st1.nodes.getD pid default
+      { st1 with nodes := st1.nodes.set pid { pn with children := pn.children ++ [(name, k)] },
+                 ids := (p, k) :: st1.ids }
+  | _ => { st with ok := false }
+
+/-- the node graph of a dump; `none` when the text is not a dump or does not print back to itself -/
+def parseDump (s : String) : Option FS :=
+  let st := (s.splitOn ";").foldl parseRec {}
+  let fs : FS := { nodes := st.nodes }
+  if st.ok ∧ String.ofList (dump fs) = s then some fs else none
+
+/-! ### requests -/
+
+def parseMutation (tok : String) : Option Mutation :=
+  match tok.splitOn "," with
+  | [ty, p, uid, gid, perms, src, r] =>
+    some { path := ux p, type := ux ty, uid := parseNat uid, gid := parseNat gid, perms := parseNat perms,
+           source := ux src, recursive := r = "1" }
+  | _ => none
+
+def parseAcc (toks : List String) : AccCfg :=
+  toks.foldl (fun (a : AccCfg) tok =>
+    match tok.splitOn "," with
+    | ["u", n, uid, gid, sh, home] =>
+      { a with users := a.users ++ [{ name := ux n, uid := parseNat uid,
+                                      gid := if gid = "-" then none else some (parseNat gid),
+                                      shell := ux sh, home := ux home }] }
+    | ["g", n, gid, mem] =>
+      { a with groups := a.groups ++ [{ name := ux n, gid := parseNat gid,
+                                        members := if mem.isEmpty then [] else (mem.splitOn "+").map ux }] }
+    | ["r", r] => { a with runAs := ux r }
+    | _ => a) {}
+
+def aerrS : AErr → Text
+  | .fs e => errS e
+  | .parse => T "EPARSE"
+  | .homeNotDir => T "EHOMENOTDIR"
+  | .badType => T "EBADTYPE"
+
+def resS : Option AErr → Text
+  | none => T "ok"
+  | some e => aerrS e
+
+def cfgT : Cfg := Cfg.impl .tarfs
+
+def str (t : Text) : String := String.ofList t
+
+def hasSub (sub : String) (t : Text) : Bool := (str t).splitOn sub |>.length |> (· > 1)
+
+/-! ### classes of the recorded findings (decidable predicates over request and failed demands) -/
+
+/-- which recorded finding explains one failed demand of a path mutation, if any -/
+def reasonClass (c : Cfg) (post : FS) (m : Mutation) (r : Text) : Option String :=
+  let s := str r
+  let setid := decide (m.perms &&& 0o7000 ≠ 0) || decide (m.perms ≥ 0o10000)
+  if (s = "perm" ∨ s = "sub-perm") ∧ setid then some "F13b"
+  else if s = "link-owner" ∧ m.type = tSymlink then some "F13a"
+  else if s = "sub-link-owner" then some "F13a"
+  else if s = "size" ∧ m.type = tEmptyFile ∧
+      (match follow c post m.path with
+       | some i => (post.node i).te.isSome
+       | none => false) = true then some "F13d"
+  else none
+
+def dedup (l : List String) : List String := l.foldl (fun acc x => if acc.contains x then acc else acc ++ [x]) []
+
+def sortS (l : List String) : List String := l.mergeSort (fun a b => decide (a ≤ b))
+
+def classOf (cls : List (Option String)) : String :=
+  if cls = [] then "-" else
+  if cls.any (·.isNone) then "unlisted" else
+  String.intercalate "+" (sortS (dedup (cls.filterMap id)))
+
+def verdict (reasons : List Text) : String :=
+  if reasons = [] then "pass" else "fail:" ++ String.intercalate "," (dedup (reasons.map str))
+
+def reply (impl : String) (reasons : List Text) (cls : String) : String :=
+  impl ++ "\t" ++ verdict reasons ++ "\t" ++ cls
+
+/-- one `mutatePaths` call with the list `ms`; the oracle is evaluated for the last mutation that
+was applied (the state after it is `post`) -/
+def handlePaths (pre goRes post : String) (mtoks : List String) : String :=
+  match parseDump pre, parseDump post, mtoks.mapM parseMutation with
+  | some fs0, some fs1, some ms =>
+    let (ifs, ie) := mutatePaths cfgT fs0 ms
+    let impl := str (resS ie) ++ "#" ++ str (dump ifs)
+    if goRes ≠ "ok" then reply impl [] "-" else
+    match ms.getLast? with
+    | none => reply impl [] "-"
+    | some m =>
+      let reasons := specMutation cfgT fs1 m
+      reply impl reasons (classOf (reasons.map (reasonClass cfgT fs1 m)))
+  | _, _, _ => "bad-request\tfail:bad-request\tunlisted"
+
+def handleAccounts (pre goRes post : String) (toks : List String) : String :=
+  match parseDump pre, parseDump post with
+  | some fs0, some fs1 =>
+    let cfg := parseAcc toks
+    let (ifs, ie, runAs) := mutateAccounts cfgT fs0 cfg
+    let res := match ie with | none => "ok:" ++ str (hex runAs) | some _ => "err"
+    let impl := res ++ "#" ++ str (dump ifs)
+    match goRes.splitOn ":" with
+    | ["ok", r] =>
+      let reasons := specAccounts cfgT fs0 fs1 cfg (ux r)
+      reply impl reasons (if reasons = [] then "-" else "unlisted")
+    | _ => reply impl [] "-"
+  | _, _ => "bad-request\tfail:bad-request\tunlisted"
+
+/-! ### end to end: the emitted layer and image configuration -/
+
+structure LEntry where
+  name : Text
+  typeflag : Nat
+  mode : Nat
+  uid : Nat
+  gid : Nat
+  size : Nat
+  link : Text
+  deriving Repr
+
+structure E2E where
+  acc : List String := []
+  muts : List Mutation := []
+  entries : List LEntry := []
+  /-- paths shipped by the packages, with the tar type flag and whether the body is non-empty -/
+  shipped : List (Text × Nat × Bool) := []
+  configUser : Text := []
+  passwd : Text := []
+  group : Text := []
+  oldPasswd : Text := []
+  oldGroup : Text := []
+
+def parseE2E (toks : List String) : E2E :=
+  toks.foldl (fun (e : E2E) tok =>
+    match tok.splitOn "," with
+    | "m" :: rest =>
+      (match parseMutation (String.intercalate "," rest) with
+       | some m => { e with muts := e.muts ++ [m] }
+       | none => e)
+    | ["e", n, tf, md, ui, gi, sz, l] =>
+      let le : LEntry := ⟨ux n, parseNat tf, parseNat md, parseNat ui, parseNat gi, parseNat sz, ux l⟩
+      { e with entries := e.entries ++ [le] }
+    | ["pre", n, tf, ne] => { e with shipped := e.shipped ++ [(ux n, parseNat tf, decide (ne = "1"))] }
+    | ["cu", u] => { e with configUser := ux u }
+    | ["pw", t] => { e with passwd := ux t }
+    | ["gr", t] => { e with group := ux t }
+    | ["opw", t] => { e with oldPasswd := ux t }
+    | ["ogr", t] => { e with oldGroup := ux t }
+    | _ => { e with acc := e.acc ++ [tok] }) {}
+
+/-- layer names are slash-separated relative paths -/
+def relName (p : Text) : Text := joinNames (parts p)
+
+def findEntry (es : List LEntry) (p : Text) : Option LEntry := es.find? fun e => relName e.name = relName p
+
+def eAttr (e : LEntry) (perms uid gid : Nat) (tag : String) : List Text :=
+  (if e.mode = wantPerm perms then [] else [tr (tag ++ "perm")]) ++
+  (if e.uid = uid ∧ e.gid = gid then [] else [tr (tag ++ "owner")])
+
+def e2eMutation (x : E2E) (m : Mutation) : List Text :=
+  match findEntry x.entries m.path with
+  | none => [tr "type"]
+  | some e =>
+    if m.type = tDirectory then
+      (if e.typeflag = 53 then [] else [tr "type"]) ++ eAttr e m.perms m.uid m.gid "" ++
+      (if m.recursive then
+        (x.entries.filter fun k => (parts m.path).isPrefixOf (parts k.name) ∧ parts k.name ≠ parts m.path).flatMap fun k =>
+          if k.typeflag = 50 then (if k.uid = m.uid ∧ k.gid = m.gid then [] else [tr "sub-link-owner"])
+          else eAttr k m.perms m.uid m.gid "sub-"
+       else [])
+    else if m.type = tEmptyFile then
+      (if e.typeflag = 48 then [] else [tr "type"]) ++ (if e.size = 0 then [] else [tr "size"]) ++
+        eAttr e m.perms m.uid m.gid ""
+    else if m.type = tPermissions then eAttr e m.perms m.uid m.gid ""
+    else if m.type = tSymlink then
+      if e.typeflag ≠ 50 then [tr "type"] else
+      (if e.link = m.source then [] else [tr "target"]) ++
+        (if e.uid = m.uid ∧ e.gid = m.gid then [] else [tr "link-owner"])
+    else if m.type = tHardlink then
+      -- a hard link pair is one body and one link entry naming it, in either direction
+      let src := findEntry x.entries m.source
+      let linked : Bool := decide (e.typeflag = 49 ∧ relName e.link = relName m.source) ||
+        (match src with | some s => decide (s.typeflag = 49 ∧ relName s.link = relName m.path) | none => false)
+      (if linked then [] else [tr "hardlink-copy"]) ++ eAttr e m.perms m.uid m.gid ""
+    else [tr "unknown-type"]
+
+def e2eReasonClass (x : E2E) (m : Mutation) (r : Text) : Option String :=
+  let s := str r
+  let setid := decide (m.perms &&& 0o7000 ≠ 0) || decide (m.perms ≥ 0o10000)
+  if (s = "perm" ∨ s = "sub-perm") ∧ setid then some "F13b"
+  else if s = "link-owner" ∧ m.type = tSymlink then some "F13a"
+  else if s = "sub-link-owner" then some "F13a"
+  else if s = "hardlink-copy" ∧ m.type = tHardlink then some "F13c"
+  else if s = "size" ∧ m.type = tEmptyFile ∧
+      (x.shipped.any fun p => relName p.1 = relName m.path ∧ p.2.1 = 48 ∧ p.2.2) then some "F13d"
+  else none
+
+def e2eHome (x : E2E) (earlier : List Text) (u : User) : List Text :=
+  if u.home = devNull then [] else
+  match findEntry x.entries u.home with
+  | none => [tr "home-missing"]
+  | some e =>
+    if e.typeflag ≠ 53 then [tr "home-notdir"] else
+    let existed := x.shipped.any (fun p => isAncestorOrSelf u.home p.1) || earlier.any (isAncestorOrSelf u.home)
+    if existed then [] else
+    (if e.mode = 0o700 then [] else [tr "home-mode"]) ++
+    (if e.uid = u.uid ∧ e.gid = u.gid then [] else [tr "home-owner"])
+
+def e2eHomes (x : E2E) : List Text → List User → List Text
+  | _, [] => []
+  | earlier, u :: rest =>
+    e2eHome x earlier u ++ e2eHomes x (if u.home = devNull then earlier else earlier ++ [u.home]) rest
+
+/-- `sel` = `acc` (accounts, homes, run-as) or the index of one path mutation -/
+def handleE2E (sel : String) (toks : List String) : String :=
+  let x := parseE2E toks
+  let cfg := parseAcc x.acc
+  if sel = "acc" then
+    let accR : List Text :=
+      match loadUsers x.oldPasswd, loadGroups x.oldGroup with
+      | some ou, some og =>
+        let wantU := ou ++ cfg.users.map specUser
+        let wantG := og ++ cfg.groups.map specGroup
+        (if loadUsers x.passwd = some wantU then [] else [tr "passwd"]) ++
+        (if (loadGroups x.group).map (·.map normGroup) = some (wantG.map normGroup) then [] else [tr "group"]) ++
+        e2eHomes x (ou.filterMap fun u => if u.home = devNull then none else some u.home) (cfg.users.map specUser) ++
+        (if x.configUser = (if cfg.runAs = [] then [] else
+            match wantU.find? (fun u => u.name = cfg.runAs) with
+            | some u => natToDec u.uid
+            | none => cfg.runAs) then [] else [tr "run-as"])
+      | _, _ => [tr "old-unparsable"]
+    "-\t" ++ verdict accR ++ "\t" ++ (if accR = [] then "-" else "unlisted")
+  else
+    match x.muts[parseNat sel]? with
+    | none => "-\tpass\t-"
+    | some m =>
+      let reasons := e2eMutation x m
+      "-\t" ++ verdict reasons ++ "\t" ++ classOf (reasons.map (e2eReasonClass x m))
+
+def handle (args : List String) : Option String :=
+  match args with
+  | ["acc.mut", pre, goRes, post, m] => some (handlePaths pre goRes post [m])
+  | "acc.paths" :: pre :: goRes :: post :: ms => some (handlePaths pre goRes post ms)
+  | "acc.accounts" :: pre :: goRes :: post :: toks => some (handleAccounts pre goRes post toks)
+  | "acc.e2e" :: sel :: toks => some (handleE2E sel toks)
+  | _ => none
 
 end Apko.Driver.Accounts
